@@ -226,7 +226,7 @@ def boundary_shapes(quick=True):
     sweeps the distance through the encoding-length boundaries (k+1..k+8 covers 15..17, 255..257, 4095..4097, 65535..65537);
     chained references whose lengths depend on each other; layouts where DATA alignment absorbs a size change"""
     out = []
-    ks = [10, 250, 4090] if quick else [10, 250, 4090, 65530, 1048570]
+    ks = [10, 250, 4090] if quick else [10, 250, 4090, 65530]
     for k in ks:
         f = fill(k); imm = [(K_IMM, 'LDAC', None)]
         out.append([(K_REL, 'BR', 0)] + f + imm + [(K_LABEL, None, 0), (K_OPR, 'SVC', 0)])
